@@ -17,8 +17,6 @@ CLAIMS = {
         "harness/canonicaliser. Oracle inputs (normalised bits, admission bits, similarity order) are quantified over in "
         "the theorems. Known finding: A/B splitter holds 2x capacity (benchmark mode).",
    design="§3 C20"),
-}
-
  "C04": dict(
    engine="tiered",
    technique="Lean 4 proof (refinement to an abstract map; reads correct for arbitrary cache contents) + differential correspondence",
